@@ -724,7 +724,7 @@ func main() {
 			var res vsched.Result
 			diverged := func() (d any) {
 				defer func() { d = recover() }()
-				res = vsched.Execute(sc.names, b, doc.Replay.Choices, 4000, 20e9)
+				res = vsched.Execute(sc.names, b, doc.Replay.Choices, 4000, 90e9)
 				return nil
 			}()
 			if diverged != nil {
@@ -757,7 +757,7 @@ func main() {
 		for i := 0; i < 2; i++ {
 			fmt.Println("=== run", i)
 			b, _ := scs[0].mk()
-			vsched.Execute(scs[0].names, b, pre, 4000, 20e9)
+			vsched.Execute(scs[0].names, b, pre, 4000, 90e9)
 		}
 		return
 	}
@@ -818,7 +818,7 @@ func main() {
 				var chk2 func(vsched.Result) *outcome
 				b, c := sc.mk()
 				chk2 = c
-				r2 := vsched.Execute(sc.names, b, violRes.Choices, 4000, 20e9)
+				r2 := vsched.Execute(sc.names, b, violRes.Choices, 4000, 90e9)
 				if o := chk2(r2); o != nil && o.fp == viol.fp {
 					again++
 				}
